@@ -141,3 +141,14 @@ def run(cx):
     cx.add('F-E-KEY', 'verify', G.has_param(args[2], 'self') and any(x.k == 'field' and x.name == 'point' for x in args[2].walk()),
            'verification key passed to verify_raw is self.point', G.where(vf, cbs[0]))
     cx.add('F-E-SIG', 'verify', args[3].k == 'param' and args[3].name == 'sig', 'signature bytes are passed through unchanged', G.where(vf, cbs[0]))
+
+
+_run0 = run
+
+
+def run(cx):
+    from .C03 import check_za
+    from .. import rules_s as S
+    _run0(cx)
+    check_za(cx)            # the verifier binds ID and key through the same ZA as the signer
+    S.s_siblings(cx, 'S-SIBLING', only=('mod-add', 'modn-sub', 'limb-add', 'limb-sub', 'limb-cmp'))
